@@ -87,6 +87,13 @@ func c20Rules(tier string) []Rule {
 		}},
 
 		core.Custom{ID: "C20.REG1", Kind: "REG", Run: c20Status},
+		// a reset empties the window *and* rewinds the insertion position (a stale head overwrites the wrong slot once the
+		// buffer is full again)
+		core.Custom{ID: "C20.PROV5", Kind: "PROV", Run: func(w *core.World, id string) []core.Result {
+			const rst = "(*utils/ringbuffer.RingBuffer[bool]).Reset"
+			rs := core.InstrPresent(w, id, "PROV", rst, `^store \$0\.head = 0$`, 1, "Reset rewinds head")
+			return append(rs, core.InstrPresent(w, id, "PROV", rst, `^store \$0\.values = \$0\.values\[:0\]$`, 1, "Reset empties the window keeping its capacity")...)
+		}},
 		core.Custom{ID: "C20.LOCK1", Kind: "LOCK", Run: func(w *core.World, id string) []core.Result {
 			rs := core.LockDiscipline(w, id, core.LockSpec{Type: "state/nodepoolhealth.Tracker", Mutex: "RWMutex", Fields: []string{"buffer"},
 				Constructor: []string{"state/nodepoolhealth.NewTracker"}, MinAccesses: 6,
